@@ -13,12 +13,12 @@ VARIABLES v_lvl, v_idx
 
 Payload == S2B("<a href=\"x\">&'b'</a>;/*{}%+ \\")
 Ctx == ("x" :> Str(Payload)) @@ ("sh" :> Safe(Str(Payload), {"html"})) @@ ("sj" :> Safe(Str(Payload), {"js"}))
-       @@ ("n" :> IntV(5)) @@ ("e" :> Str(<<>>))
+       @@ ("n" :> IntV(5)) @@ ("e" :> Str(<<>>)) @@ ("st" :> [t |-> "gostr", s |-> Payload])   \* st: a Go fmt.Stringer
 
 Names == {"a.html", "a.js", "a.css", "a.txt", "a", "a.foo", "a.html.twig", "a.js.twig", "d.js/a", "a.url", "a.html_attr", "a.HTML", "inline",
           "a.txt.html", "a.min.js", "a.js.html", "a.html.txt.twig", "v1.2/a.css", "a.b.c.css.twig", ".js", "a."}
 Forms == {"plain", "escape", "escape-js", "escape-attr", "escape-css", "escape-url", "raw", "safe-html", "safe-js", "filtered",
-          "concat", "literal", "number", "empty", "escape-raw", "tern"}
+          "concat", "literal", "number", "empty", "escape-raw", "tern", "stringer", "stringer-escape", "stringer-js"}
 Places == {"top", "if", "else", "for", "block", "inherited", "included", "embedded", "override", "capture", "section", "macro", "forelse"}
 
 PrintOf(form) ==
@@ -37,6 +37,9 @@ PrintOf(form) ==
     [] form = "number" -> PrintS(NameE("n"))
     [] form = "empty" -> PrintS(NameE("e"))
     [] form = "escape-raw" -> PrintS(Pipe(Pipe(NameE("x"), "escape", <<>>), "raw", <<>>))
+    [] form = "stringer" -> PrintS(NameE("st"))
+    [] form = "stringer-escape" -> PrintS(Pipe(NameE("st"), "escape", <<>>))
+    [] form = "stringer-js" -> PrintS(Pipe(NameE("st"), "escape", <<StrE("js")>>))
     [] OTHER -> PrintS(Tern(BoolE(TRUE), NameE("x"), StrE("<")))
 
 (* what the property requires of the print, given the content type ct of its template *)
@@ -57,6 +60,9 @@ Seg(form, ct) ==
     [] form = "number" -> E(ct, <<53>>)
     [] form = "empty" -> <<>>
     [] form = "escape-raw" -> E("html", Payload)
+    [] form = "stringer" -> E(ct, Payload)
+    [] form = "stringer-escape" -> E("html", Payload)
+    [] form = "stringer-js" -> E("js", Payload)
     [] OTHER -> E(ct, Payload)
 
 (* content type required for a template name (the statement of C12, independent of Exec!CtOfName) *)
